@@ -113,6 +113,9 @@ func main() {
 		res.Rule = "termination causes {handler close, context cancel, connection loss (fin/rst/blackhole; armed on the channel-id response at 5 byte positions, or cut later), client close, cancel racing loss, loss then close, handler close racing cancel} x instants {at start, after the first value, mid-stream, with values buffered behind a stalled consumer} x {reconnecting, no-reconnect} x 1..3 subscriptions; per subscription the hook trace is replayed through the model; every channel must close; distinct = (cause, instant, reconnect, fault, k, n); every case non-trivial"
 		err = stream.RunTermination(d, res, *seed, thorough)
 		if err == nil {
+			err = stream.StaleContextAfterReconnect(d, res, *seed)
+		}
+		if err == nil {
 			err = corr.SubRegVsSweep(d, res, *seed, "loss")
 		}
 	case "C09":
@@ -157,9 +160,21 @@ func main() {
 		if err == nil {
 			err = corr.OneShotAtMostOnce(res)
 		}
+		if err == nil {
+			err = corr.MergedStructs(res, *seed)
+		}
+		if err == nil {
+			err = corr.OneShotNotifyOnce(res, *seed)
+		}
 	case "C18":
 		res.Rule = "a mixed workload (queued, written and awaiting calls, a 400 kB response being read, a stream, a connection loss with calls in the reconnect window and after) with the closer fired at sampled occurrences (first, last, random) of each of 25 yield-point sites (hook gates), plus the sweep-versus-executor schedule with the closer as observer and closers of one-shot clients; distinct = (site, occurrence)"
 		err = corr.CloseEverywhere(d, res, *seed, thorough)
+		if err == nil {
+			err = corr.CancelThenClose(d, res, *seed)
+		}
+		if err == nil {
+			err = corr.CloseWithBacklog(res, *seed, 12000)
+		}
 	case "C05":
 		res.Rule = "backoff: grid of (minDelay, maxDelay) x attempts -2..N x repetitions (implementation's own jitter); distinct = (min, max, attempt); non-trivial = delay still growing (or every 50th capped attempt); plus reconnect scenarios through the proxy (outage with k refused redials x error mapping on/off with an untagged and a retry-tagged call in flight and a call issued in the window; a server that drops every connection right after the upgrade; a no-reconnect client; keepalive after a heal): redial events with hook times replayed through Jrpc.Redial, retry attempts compared with Jrpc.Redial.retryLoop"
 		err = c05.RunBackoff(d, res, thorough, corpus)
